@@ -6,7 +6,9 @@
        supersedes C05_identity_partial;
      - C05_identity_ext* : the same two-way identity on the extended fragment cm2_table (RaiseSpec2.v,
        RaiseSound2.v: + until (both forms), rep, rep_opt, rep_min_max, if_then_else, if_must/opt_must without
-       further rules; star_must / list_must are aliases inside the fragment), conservative over RPeg;
+       further rules, the transparent wrappers action<> / control<> / enable / disable / state<>, and
+       try_catch_return_false (a raise inside becomes a local failure); star_must / list_must are aliases inside
+       the fragment), conservative over RPeg;
      - C05_position_tracked_ok : C05_position_tracked for every PosFacts2.table_ok table (eol / eolf under every
        policy but cr_crlf, istring, utf8 / uint8 / masked decoders), RaisePos2.v; supersedes C05_position_tracked.
    Still partial: identity is stated for void configurations (no vetoing / throwing action, no match-level
@@ -263,7 +265,9 @@ Proof. exact identity. Qed.
 Print Assumptions C05_identity.
 
 (* the extended fragment: cm_table + until< C >, until< C, R >, rep, rep_opt, rep_min_max, if_then_else,
-   if_must< C > / opt_must< C >; XPeg = RPeg + these operators (RaiseSpec2.v) *)
+   if_must< C > / opt_must< C >, action< A, R > / control< K, R > / enable< R > / disable< R > / state< S, R >
+   (transparent), try_catch_[any_|std_|type_]return_false< R > (a parse_error raised inside R becomes a local
+   failure unless the filter is a foreign type); XPeg = RPeg + these operators (RaiseSpec2.v) *)
 Theorem C05_identity_ext_sound :
   forall G C, table_wf G -> void_cfg C -> cm2_table G ->
   forall f d r c o c' evs, (r < length G)%nat -> bytes_ok (rest c) -> eval G C f d r c = Res o c' evs ->
@@ -354,3 +358,13 @@ Example C05_example_tracked_ok :
                  = Res (Exc (EParse (WRule 5%nat) (mkpos 6 2 5))) c' evs.
 Proof. split; [exact ok_G_table_ok | exact exn_tracked_ok_example]. Qed.
 Print Assumptions C05_example_tracked_ok.
+(* aliases and conversion: list_must< one<'a'>, one<','> > on "a,b" raises the rule that must follow the separator;
+   wrapped in try_catch_return_false the same input is a local failure; star_must< one<'a'>, one<','> > on "a,a;"
+   blames the ','.  (The formalism's verdicts are obtained from the engine runs through C05_identity_ext_sound.) *)
+Example C05_example_aliases :
+  table_wf al_G /\ cm2_table al_G /\ void_cfg RaiseSound.ex_C /\
+  (exists s0, XPeg al_G 1%nat [97; 44; 98]%N (RRaise 2%nat s0)) /\
+  XPeg al_G 0%nat [97; 44; 98]%N RFail /\
+  (exists s0, XPeg al_G 7%nat [97; 44; 97; 59]%N (RRaise 5%nat s0)).
+Proof. split; [exact al_G_wf|]. split; [exact al_G_cm2|]. split; [exact ex_C_void | exact alias_example]. Qed.
+Print Assumptions C05_example_aliases.
